@@ -102,13 +102,18 @@ def _unit_body(modname, unit):
         faulthandler.cancel_dump_traceback_later()
 
 
+INPROCESS_MODULES = {"sim.c19", "sim.c06"}
+
+
 def _worker_entry(modname, unit):
     """One unit = one process.  The pool worker (or the main process) forks a child for the unit and only collects its result, so
     that no unit ever runs in a process that has executed code under test before: state that the code leaks from one call to the
     next (a module-level registry, a memo, a remembered refusal) stays inside the unit that created it -- the first run that shows
     it is then self-contained and replays -- and cannot turn later, unrelated units into a cloud of irreproducible candidates
     (that is what the seeded change r11a did to the first version of the follow-up check)."""
-    if os.environ.get("VERIF_UNIT_INPROCESS") == "1":
+    if os.environ.get("VERIF_UNIT_INPROCESS") == "1" or modname in INPROCESS_MODULES:
+        # C19 and C06 isolate what needs isolating themselves (every call sequence / golden run is served by a forked process of
+        # its own) and pay a per-process warm-up that a fork per unit would multiply
         return _unit_body(modname, unit)
     import pickle
     import select
